@@ -177,6 +177,8 @@ def witness_tables():
         ("param_bounded_param", "subtypes", bt, Qux.new([Node.new([tp.WildCardType(Wrap, tp.Covariant)]), Leaf]),
          [Qux, Node, Wrap, Leaf, kt.String],
          lambda rs: any(kind(r) == "p" and r.name == "Qux" and r.type_args[0] == Leaf for r in rs)),
+        ("projected_query", "irrelevant", bt, Box.new([tp.WildCardType()]), [Box, Foo, Baz, kt.String],
+         lambda r: kind(r) == "p" and r.name == "Box"),
         ("type_variable_bound_chain", "irrelevant", bt, tp.TypeParameter("Z", bound=tp.TypeParameter("V", bound=kt.Double)),
          [kt.Double, kt.String, Foo], lambda r: r == kt.Double),
         ("nested_contravariant_projection", "subtypes", bt,
